@@ -23,6 +23,7 @@ import (
 	"strconv"
 	"strings"
 	"unicode"
+	"unicode/utf16"
 )
 
 // Config allows enabling and disabling parser features.
@@ -346,7 +347,47 @@ func (p *flagParser) parseStringDQuote() (string, error) {
 	}
 
 	p.input = in[i+1:]
-	return strconv.Unquote(in[:i+1])
+	return strconv.Unquote(jsonEscapes(in[:i+1]))
+}
+
+// jsonEscapes rewrites the two escapes that JSON strings have and Go string
+// literals lack - "\/" and a surrogate pair like "\ud83d\ude00" - into their Go
+// spelling, so that strconv.Unquote reads every JSON string.
+func jsonEscapes(s string) string {
+	if !strings.Contains(s, `\/`) && !strings.Contains(s, `\u`) {
+		return s
+	}
+
+	var b strings.Builder
+	for i := 0; i < len(s); i++ {
+		c := s[i]
+		if c != '\\' || i+1 >= len(s) {
+			b.WriteByte(c)
+			continue
+		}
+
+		n := s[i+1]
+		if n == '/' {
+			b.WriteByte('/')
+			i++
+			continue
+		}
+		if n == 'u' && i+12 <= len(s) && s[i+6] == '\\' && s[i+7] == 'u' {
+			hi, err1 := strconv.ParseUint(s[i+2:i+6], 16, 32)
+			lo, err2 := strconv.ParseUint(s[i+8:i+12], 16, 32)
+			if err1 == nil && err2 == nil {
+				if r := utf16.DecodeRune(rune(hi), rune(lo)); r != unicode.ReplacementChar {
+					fmt.Fprintf(&b, `\U%08x`, r)
+					i += 11
+					continue
+				}
+			}
+		}
+		b.WriteByte(c)
+		b.WriteByte(n)
+		i++
+	}
+	return b.String()
 }
 
 func (p *flagParser) parseStringSQuote() (string, error) {
